@@ -127,9 +127,16 @@ func runC13(r *R) {
 				case 0:
 					_ = c.State()
 				case 1:
+					// hold a snapshot across scheduling points: the struct returned by Mailbox() is read
+					// without a lock by design, so the client must never write to it again
 					if mb := c.Mailbox(); mb != nil {
-						_ = mb.NumMessages
-						_ = len(mb.Flags)
+						n1, f1 := mb.NumMessages, len(mb.Flags)
+						for k := 0; k < 3; k++ {
+							simrt.Yield(simrt.OpYield)
+						}
+						if n2, f2 := mb.NumMessages, len(mb.Flags); n1 != n2 || f1 != f2 {
+							r.Violate("mailbox-snapshot-mutated", "SelectedMailbox", "a *SelectedMailbox obtained from Client.Mailbox() changed under its holder: NumMessages %d -> %d, len(Flags) %d -> %d (an unsynchronised write to memory that callers read without a lock)", n1, n2, f1, f2)
+						}
 					}
 				default:
 					if i < 6 {
